@@ -456,7 +456,7 @@ func r183(c *Ctx) {
 			if isField {
 				which = f.Name()
 			}
-			okSite := isField && ((f.Name() == "becameHealthy" && fname(outer(fn)) == "(*server.Target).HealthCheckCompleted") || (f.Name() == "pauseChannel" && strings.HasPrefix(fname(outer(fn)), "(*server.PauseController).")))
+			okSite := isField && ((f == c.field("Target", "becameHealthy") && fname(outer(fn)) == "(*server.Target).HealthCheckCompleted") || (f == c.field("PauseController", "pauseChannel") && strings.HasPrefix(fname(outer(fn)), "(*server.PauseController).")))
 			c.ob(rule, "close("+which+") in "+fname(fn), cs.pos(), okSite, true, "every close must be one of the two typestate-checked sites: becameHealthy (closed once, on adding->healthy: R01.4) or PauseController.pauseChannel (model below)")
 		}
 	}
